@@ -6,6 +6,7 @@ CONSTANTS Producers = {"p1"}
           SafeEnv = TRUE
           Locks = TRUE
           RealTime = FALSE
+          Disconnect = TRUE
           NMsgs = 2
           ScriptSet = {"reset", "quit"}
           Script2Set = {"reset"}
